@@ -15,7 +15,7 @@
   proved (`fit_no_internal_partial` says what is); every other Fitter theorem assumes `.ok`.
   Helpers: Proofs/Respects.lean, RangeOps.lean, Fitter.lean, FitterText.lean, FitRaises.lean,
   FitMeasure.lean, FitScan.lean, FitTerm.lean, FitLoop.lean, FitTotal.lean, FitDelete.lean, FitInline.lean,
-  FillOrder.lean.
+  FitInv.lean (well-formedness of the emitted step, last section but one), FillOrder.lean.
 -/
 import PM.Monitor
 import Proofs.StepToks
@@ -28,6 +28,7 @@ import Proofs.ReplaceRange
 import Proofs.FitTotal
 import Proofs.FitDelete
 import Proofs.FitInline
+import Proofs.FitInv
 import Proofs.Placement
 import Props.C01
 namespace PM.C11
@@ -1062,6 +1063,140 @@ example :
     fitsTriviallyO S doc 4 4 sl = some false ∧
     (match replaceStep S doc 4 4 sl with
      | .ok (some (.replace 4 4 sl' _)) => sl' == ⟨[.elem 1 [] [] [.text [120] []]], 0, 0⟩
+     | _ => false) = true := by decide +kernel
+
+/-! ### the emitted step is well-formed (`StepWF`, PM/StepWF.lean; `aroundShape`, PM/CommuteGuard.lean)
+
+What `Step.apply` needs of a replace payload so that it cannot die with an internal error (C01), and
+the hypothesis `AroundShape` of the C17 theorems: the slice's open depths are covered by its content
+(`Slice.wf`), and for a replace-around step `insert ≤ slice.size` with the gap inside the range.
+
+The state of the Fitter is `(unplaced, frontier, placed)`.  `placed` is only ever changed through
+`add_to_fragment` (Proofs/FitInv.lean `AddStable`: a predicate kept by `add_to_fragment` is kept by
+`close_frontier_node`, `open_frontier_node`, `place_nodes`, every iteration, `close`), which gives, for
+**every** emitted step, without hypothesis on the schema or the slice:
+* the *start* half of `Slice.wf`: `Fitter.__init__`'s first-child chain of `depth(from)` non-leaf
+  nodes is never destroyed (`spineL_stable`), and the final `while` that strips single open wrappers
+  keeps covered depths covered (`normalizeOpen_wf`);
+* `insert = placed_size ≤ slice.size`: `placed` only grows, and `close` adds at least one position per
+  re-opened level (`closeFit_grow`);
+* the order of range and gap (`fit_range`).
+
+The *end* half — `open_end = depth(close target) ≤` the last-child chain of non-leaf nodes of the final
+`placed` — needs `placed` and the frontier *in step* at the end of the loop
+(`frontier.length - 1 ≤ spineR placed`; `closeFit_spine` carries it through `close`).  That is proved
+where the loop is proved to keep it: deletions (no iteration) and closed slices of leaf / text nodes
+(`LoopInv`), i.e. the two classes for which `replace_step` is proved total.
+
+FULL STATEMENT AIMED AT (`fit_emits_wf`, not proved for slices the loop has to open):
+`detB S → S.fillersOKB → S.wrapOKB → C01.Valid S doc → S.nodeAttrsOK doc → sl.wf → (guards below) →
+ replaceStep S doc f t sl = .ok (some st) → StepWF st ∧ (st replace-around → aroundShape …)`.
+What is missing is exactly the in-step invariant over `place_nodes` when it pushes the open end of
+the placed content onto the frontier (`pushOpenEnd`), and it is *false* without guards on the
+unplaced slice — three ways the model (= the code, also upstream) gets out of step:
+(a) a pass-2 wrapper whose successor state accepts the node itself (`Schema.wrapOKB` excludes it);
+(b) `open_more` raising `open_end` past a leaf / text node that follows a non-leaf sibling (the slices
+    `Slice.termGuard` excludes at the top level; deeper levels would need the same condition on every
+    fragment of the end spine) — `place_nodes` then pushes a frontier entry for a leaf;
+(c) a single start-open node without content at the end of the content (`place_nodes` does not add it
+    to `placed` but still pushes its open end); unreachable while `open_start ≤ spineL` *and*
+    `size ≠ 0`, but `place_nodes` lets `open_start` exceed the first-child chain by one.
+The tie (op `fitEmit`, harness/rangeplan.py) evaluates `StepWF` / `aroundShape` on the model's emitted
+step for every generated request, compares them exactly with the same predicates on the real step,
+and checks the real step's payload with the independent validator. -/
+
+/-- **`fit_emits_wf_partial`** — for every step `replace_step` emits, whatever the schema and the
+    (start-covered) slice: the slice's `open_start` is covered by its content; the step starts at
+    `from`; a replace-around step has `insert ≤ slice.size` and range and gap in order
+    (`from ≤ gapFrom ≤ gapTo ≤ to`).  Missing for the full `fit_emits_wf`: `open_end ≤ spineR`
+    (see above; proved for deletions and inline insertions below). -/
+theorem fit_emits_wf_partial (S : Schema) (doc : Node) (f t : Nat) (sl : Slice) (st : Step) (hft : f ≤ t)
+    (hsl : sl.openStart ≤ spineL sl.content) (h : replaceStep S doc f t sl = .ok (some st)) :
+    (∃ sl', st.sliceOf = some sl' ∧ sl'.openStart ≤ spineL sl'.content) ∧
+    (∀ F T G1 G2 sl' ins b, st = .replaceAround F T G1 G2 sl' ins b →
+      (ins : Int) ≤ sl'.size ∧ F ≤ G1 ∧ G1 ≤ G2 ∧ G2 ≤ T) := by
+  obtain ⟨sl', hs, hw, hins⟩ := replaceStep_wf_left S doc f t sl st hsl h
+  refine ⟨⟨sl', hs, hw⟩, ?_⟩
+  intro F T G1 G2 sl'' ins b hst
+  have hr := fit_range_monitor S doc f t sl st hft h
+  subst hst
+  simp only at hr
+  exact ⟨hins _ _ _ _ _ _ _ rfl, hr.1, hr.2.1, hr.2.2.1⟩
+
+/-- a well-formed replace-around step with its positions in order has the shape the C17 theorems ask for -/
+theorem aroundShape_of (F T G1 G2 : Nat) (sl : Slice) (ins : Nat) (b : Bool)
+    (hwf : StepWF (.replaceAround F T G1 G2 sl ins b) = true) (h1 : F ≤ G1) (h2 : G1 ≤ G2) (h3 : G2 ≤ T) :
+    aroundShape F T G1 G2 sl ins = true := by
+  simp only [StepWF, Bool.and_eq_true, decide_eq_true_eq] at hwf
+  simp only [aroundShape, Bool.and_eq_true, decide_eq_true_eq]
+  exact ⟨⟨⟨⟨hwf.1, hwf.2⟩, h1⟩, h2⟩, h3⟩
+
+/-- **`delete_emits_wf`** — every step `replace_step` emits for a deletion on a valid document is
+    well-formed (`StepWF`: `Slice.wf`, `insert ≤ slice.size`), and a replace-around answer has
+    `aroundShape`.  With `delete_total`: `Transform.delete` / `delete_range` always hand `Step.apply` a
+    well-formed payload. -/
+theorem delete_emits_wf (S : Schema) (hdet : detB S = true) (hfill : S.fillersOKB = true) (doc : Node) (f t : Nat)
+    (hv : C01.Valid S doc) (hattrs : S.nodeAttrsOK doc = true) (hft : f ≤ t) (st : Step)
+    (h : replaceStep S doc f t Slice.empty = .ok (some st)) :
+    StepWF st = true ∧
+    (∀ F T G1 G2 sl' ins b, st = .replaceAround F T G1 G2 sl' ins b → aroundShape F T G1 G2 sl' ins = true) := by
+  have hwf := replaceStep_empty_wf S (detS_of_detB S hdet) (fillersOK_of_B S hfill) doc f t hv hattrs st h
+  refine ⟨hwf, ?_⟩
+  intro F T G1 G2 sl' ins b hst
+  obtain ⟨_, hr⟩ := fit_emits_wf_partial S doc f t Slice.empty st hft (by decide) h
+  obtain ⟨_, h1, h2, h3⟩ := hr F T G1 G2 sl' ins b hst
+  subst hst
+  exact aroundShape_of F T G1 G2 sl' ins b hwf h1 h2 h3
+
+/-- **`insertInline_emits_wf`** — the same for every closed slice of leaf / text nodes (typing,
+    `insert`, `replace_with` of inline content) -/
+theorem insertInline_emits_wf (S : Schema) (hdet : detB S = true) (hfill : S.fillersOKB = true)
+    (hwrap : S.wrapOKB = true) (doc : Node) (f t : Nat) (sl : Slice) (hsl : sl.inlineLeaves S = true)
+    (hv : C01.Valid S doc) (hattrs : S.nodeAttrsOK doc = true) (hft : f ≤ t) (st : Step)
+    (h : replaceStep S doc f t sl = .ok (some st)) :
+    StepWF st = true ∧
+    (∀ F T G1 G2 sl' ins b, st = .replaceAround F T G1 G2 sl' ins b → aroundShape F T G1 G2 sl' ins = true) := by
+  have hwf := replaceStep_inline_wf S (detS_of_detB S hdet) (fillersOK_of_B S hfill) (wrapOK_of_B S hwrap) doc f t sl
+    hsl hv hattrs st h
+  refine ⟨hwf, ?_⟩
+  intro F T G1 G2 sl' ins b hst
+  have hos : sl.openStart ≤ spineL sl.content := by
+    simp only [Slice.inlineLeaves, Bool.and_eq_true, beq_iff_eq] at hsl
+    rw [hsl.1.1]; exact Nat.zero_le _
+  obtain ⟨_, hr⟩ := fit_emits_wf_partial S doc f t sl st hft hos h
+  obtain ⟨_, h1, h2, h3⟩ := hr F T G1 G2 sl' ins b hst
+  subst hst
+  exact aroundShape_of F T G1 G2 sl' ins b hwf h1 h2 h3
+
+/-- `Transform.delete_range` as well: the step it records is well-formed -/
+theorem deleteRange_emits_wf (S : Schema) (hdet : detB S = true) (hfill : S.fillersOKB = true) (doc : Node) (f t : Nat)
+    (hv : C01.Valid S doc) (hattrs : S.nodeAttrsOK doc = true) (hft : f ≤ t) (st : Step)
+    (h : deleteRangeStep S doc f t = .ok (some st)) : StepWF st = true := by
+  unfold deleteRangeStep at h
+  split at h
+  · simp [throw, throwThe, MonadExceptOf.throw] at h
+  · rename_i a b hp
+    obtain ⟨h1, h2, _⟩ := deleteRange_extends_structurally S doc f t a b hp
+    exact (delete_emits_wf S hdet hfill doc a b hv hattrs (by omega) st h).1
+
+/-- the statements are not vacuous: deleting `[2, 6)` of `doc(p("ab"), p("cd"))` goes through the
+    Fitter and emits the step with the empty slice; typing `"x"` between the paragraphs emits a
+    wrapped paragraph; both are `StepWF` -/
+example :
+    let nt (name : String) (isText inl : Bool) (dfa : Array DfaState) : NodeType :=
+      { name := name, isText := isText, isInline := isText, isLeaf := isText, isAtom := isText,
+        inlineContent := inl, isolating := false, defining := false, code := false,
+        dfa := dfa, markSet := none, attrs := [] }
+    let S : Schema := { nodes := #[nt "doc" false false #[⟨false, [(1, 1)]⟩, ⟨true, [(1, 1)]⟩],
+                                   nt "paragraph" false true #[⟨true, [(2, 0)]⟩],
+                                   nt "text" true false #[⟨true, []⟩]],
+                        marks := #[], top := 0, textTy := 2 }
+    let doc := Node.elem 0 [] [] [.elem 1 [] [] [.text [97, 98] []], .elem 1 [] [] [.text [99, 100] []]]
+    (match replaceStep S doc 2 6 Slice.empty with
+     | .ok (some st) => StepWF st
+     | _ => false) = true ∧
+    (match replaceStep S doc 4 4 ⟨[.text [120] []], 0, 0⟩ with
+     | .ok (some st) => StepWF st
      | _ => false) = true := by decide +kernel
 
 /-! ### the fuelled searches the Fitter calls (PM/FillOrder.lean) -/
